@@ -26,6 +26,60 @@ HAND_FEATURES = [
 CODE_FEATURES = {162: (11, "fromisoformat parses a trailing Z (3.11)"), 173: (9, "dict | dict (3.9)")}
 
 
+def target_defs(repo: Path) -> str:
+    """GenTarget.v: Settings.get_python_version, the order load_settings merges its two sources in,
+    and the single place the target reaches mypy.  Fail-closed: any other shape raises."""
+    st = ast.parse((repo / "refurb" / "settings.py").read_text("utf8"))
+    mn = ast.parse((repo / "refurb" / "main.py").read_text("utf8"))
+
+    def body_of(fn):
+        return [x for x in fn.body if not (isinstance(x, ast.Expr) and isinstance(x.value, ast.Constant))]
+
+    def same(node, src: str) -> bool:
+        return ast.dump(node) == ast.dump(ast.parse(src).body[0])
+    top = next((n for n in st.body if isinstance(n, ast.FunctionDef) and n.name == "get_python_version"), None)
+    if top is None or len(body_of(top)) != 1 or not same(body_of(top)[0], "return sys.version_info[:2]"):
+        raise TranslateError("target: settings.get_python_version() is not `return sys.version_info[:2]`")
+    cls = next(n for n in st.body if isinstance(n, ast.ClassDef) and n.name == "Settings")
+    meth = next((n for n in cls.body if isinstance(n, ast.FunctionDef) and n.name == "get_python_version"), None)
+    if meth is None or len(body_of(meth)) != 1 or not same(body_of(meth)[0], "return self.python_version or get_python_version()"):
+        raise TranslateError("target: Settings.get_python_version is not `return self.python_version or get_python_version()`")
+    ls = next((n for n in st.body if isinstance(n, ast.FunctionDef) and n.name == "load_settings"), None)
+    if ls is None:
+        raise TranslateError("target: load_settings not found")
+    b = body_of(ls)
+    if not same(b[0], "cli_args = parse_command_line_args(args)") or not same(b[-1], "return Settings.merge(config_file, cli_args)"):
+        raise TranslateError("target: load_settings does not start with cli_args = parse_command_line_args(args) and end with return Settings.merge(config_file, cli_args)")
+    for n in ast.walk(ls):
+        if isinstance(n, (ast.Assign, ast.AugAssign, ast.AnnAssign)):
+            tg = n.targets if isinstance(n, ast.Assign) else [n.target]
+            for t in tg:
+                nm = ast.unparse(t)
+                if nm.split(".")[0] == "cli_args" and n is not b[0]:
+                    raise TranslateError(f"target: load_settings modifies cli_args: {ast.unparse(n)[:80]}")
+                if nm == "config_file" and ast.unparse(n.value) not in ("parse_config_file(file.read_text())", "Settings()"):
+                    raise TranslateError(f"target: config_file comes from {ast.unparse(n.value)[:80]}")
+                if nm.startswith("config_file."):
+                    raise TranslateError(f"target: load_settings modifies the parsed config: {ast.unparse(n)[:80]}")
+    # the target reaches mypy once, unmodified; nothing else assigns python_version after the merge
+    sites = []
+    for tree, fname in ((mn, "main.py"), (st, "settings.py")):
+        for fn in [n for n in ast.walk(tree) if isinstance(n, (ast.FunctionDef, ast.AsyncFunctionDef))]:
+            for n in ast.walk(fn):
+                if isinstance(n, ast.Assign) and any(isinstance(t, ast.Attribute) and t.attr == "python_version" for t in n.targets):
+                    sites.append((fname, fn.name, ast.unparse(n)))
+    want = {("main.py", "run_refurb", "opt.python_version = settings.get_python_version()"),
+            ("settings.py", "parse_config_file", "settings.python_version = parse_python_version(version)"),
+            ("settings.py", "parse_command_line_args", "settings.python_version = parse_python_version(version)")}
+    if set(sites) != want:
+        raise TranslateError(f"target: python_version is assigned at {sorted(set(sites) ^ want)} (expected only the two parsers and mypy's options)")
+    return ("(* generated from refurb/settings.py (get_python_version, load_settings) and refurb/main.py *)\n"
+            "From Lib Require Import Base Select.\nFrom P Require Import GenSelect.\n"
+            "Definition effective_target (s : settings) (running : N * N) : N * N :=\n"
+            "  match or_opt (python_version s) (Some running) with Some v => v | None => running end.\n"
+            "Definition load_merge (config cli : settings) : settings := merge config cli.\n")
+
+
 def typeshed_index() -> tuple[dict[str, int], dict[str, int]]:
     """name -> minimal minor version guard, for module-level names ("shlex.join") and
     for methods of builtins classes (".removeprefix")."""
@@ -171,7 +225,15 @@ def run(ctx: Ctx) -> None:
             return f"Switch {x[1]} {coq.coq_str(x[2])} {coq.coq_str(x[3])}"
         gen = ("From Lib Require Import Base Gates.\nDefinition gates : list (N * list gate) := [\n"
                + ";\n".join(f"  ({c}%N, {coq.coq_list([g(x) for x in gs])})" for c, gs in table) + "].\n")
-        b = coq.compile_props(ctx, {"GenGates": gen}, ["GenGates", "C15"])
+        gens, order = {"GenGates": gen}, ["GenGates", "C15"]
+        try:
+            from ..translate.selection import translate as translate_selection
+            gens["GenSelect"] = translate_selection(REPO)
+            gens["GenTarget"] = target_defs(REPO)
+            order += ["GenSelect", "GenTarget", "C15Target"]
+        except TranslateError as e:
+            ctx.obligation("translate Settings.merge / get_python_version / load_settings (which version is the target)", False, str(e))
+        b = coq.compile_props(ctx, gens, order)
         coq.record_build(ctx, b)
         ctx.extra["gates"] = {str(c): gs for c, gs in table if gs}
     # ---- search + tie on the real code: every diagnostic at every target version
@@ -212,6 +274,34 @@ def run(ctx: Ctx) -> None:
             for k in lost[:3]:
                 ctx.report(f"not-monotone:FURB{k[3]}", f"FURB{k[3]} reported at 3.{minor-1} but not at 3.{minor}",
                            {"file": k[0], "line": k[1], "versions": [minor - 1, minor]})
+    # both sources name a version: the command line's is the target (load_settings -> merge -> get_python_version)
+    import tempfile
+    from refurb.main import run_refurb
+    from refurb.settings import load_settings
+    idf0 = files[0]
+    for cfg_v, cli_v in [(top, 8), (top, 7), (11, 9), (7, top), (8, 10)]:
+        with tempfile.TemporaryDirectory(prefix="c15-") as td:
+            toml = Path(td) / "cfg.toml"
+            toml.write_text(f'[tool.refurb]\npython_version = "3.{cfg_v}"\nenable_all = true\n')
+            argv = ["--config-file", str(toml), "--python-version", f"3.{cli_v}", "--quiet", idf0]
+            try:
+                errs = run_refurb(load_settings(argv))
+            except Exception as ex:  # noqa: BLE001
+                errs = [f"{type(ex).__name__}: {ex}"]
+        got = {(e.filename, e.line, e.column, e.code): e.msg for e in errs if not isinstance(e, str)}
+        want = {k: v for k, v in per_v[cli_v].items() if k[0] == idf0}
+        ctx.case(("both-sources", cfg_v, cli_v), nontrivial=True,
+                 sample={"config": f"3.{cfg_v}", "command_line": f"3.{cli_v}", "diagnostics": len(got)} if cfg_v == top and cli_v == 8 else None)
+        ctx.count("config-and-command-line-disagree")
+        if got != want:
+            newer = [(k, m) for k, m in got.items() if max([v for v, _ in features_of(k[3], m, mod_names, methods)], default=7) > cli_v]
+            detail = {"config python_version": f"3.{cfg_v}", "argv": argv, "only_with_both": sorted(f"{k[1]}:{k[2]} FURB{k[3]} {m}" for k, m in got.items() if want.get(k) != m)[:8],
+                      "missing": sorted(f"{k[1]}:{k[2]} FURB{k[3]} {m}" for k, m in want.items() if got.get(k) != m)[:8]}
+            if newer:
+                k, m = newer[0]
+                ctx.report(f"too-new:FURB{k[3]}", f"--python-version 3.{cli_v} with python_version = \"3.{cfg_v}\" in the config file: FURB{k[3]} proposes a feature newer than 3.{cli_v}: {m}", detail)
+            else:
+                ctx.report("target:not-the-command-line-version", f"--python-version 3.{cli_v} with python_version = \"3.{cfg_v}\" in the config file does not report what --python-version 3.{cli_v} alone reports", detail)
     # tie: the model's `fires` agrees with the real run for every gated check on the idiom corpus
     if table is not None:
         idf = files[0]
@@ -238,4 +328,5 @@ def run(ctx: Ctx) -> None:
                        not mism, "; ".join(mism))
     ctx.rule("every diagnostic emitted on (idiom corpus + test/data) at every target 3.7..3.13; non-trivial = message with a dated feature or from a gated check; distinct by (code, message, target)")
     ctx.extra["codes_observed"] = len(seen_codes)
-    ctx.resolve_broken({"never_too_new": "too-new:", "monotone": "not-monotone:"}, b.first_error if b else "")
+    ctx.resolve_broken({"never_too_new": "too-new:", "monotone": "not-monotone:", "command_line_version_is_the_target": "too-new:", "config_version_otherwise": "target:", "both_sources_disagree": "too-new:",
+                        "translate Settings.merge / get_python_version / load_settings (which version is the target)": "too-new:"}, b.first_error if b else "")
